@@ -69,8 +69,9 @@ def _smtname(v):
     return '|%s|' % n
 
 
-def _run_external(path, timeout, which=None):
-    """Run the external portfolio on an smt2 file.  Returns (status, solver, text)."""
+def _run_external(path, timeout, which=None, wait_all=False):
+    """Run the external portfolio on an smt2 file.  Returns (status, solver, text); with wait_all every back end
+    runs until it answers or times out and (status, 'diff:<agreeing solvers>', text, all_answers) is returned."""
     procs = []
     lock = threading.Lock()
     done = threading.Event()
@@ -112,8 +113,10 @@ def _run_external(path, timeout, which=None):
         ths.append(th)
     t0 = time.time()
     while time.time() - t0 < timeout + 1:
-        if done.wait(0.05):
+        if not wait_all and done.wait(0.05):
             break
+        if wait_all:
+            time.sleep(0.05)
         if not any(t.is_alive() for t in ths):
             break
     with lock:
@@ -123,10 +126,13 @@ def _run_external(path, timeout, which=None):
     for t in ths:
         t.join()
     if answer[0] is None:
-        return ('unknown', None, '')
+        return ('unknown', None, '') if not wait_all else ('unknown', 'diff', '', [])
     kinds = set(a[0] for a in answers)
     if len(kinds) > 1:
-        return ('conflict', ','.join(a[1] for a in answers), '')
+        r = ('conflict', ','.join(a[1] for a in answers), '')
+        return r if not wait_all else r + ([(a[1], a[0]) for a in answers],)
+    if wait_all:
+        return (answer[0][0], 'diff:' + '/'.join(a[1] for a in answers), answer[0][2], [(a[1], a[0]) for a in answers])
     return answer[0]
 
 
